@@ -257,7 +257,7 @@ func (x *Exec) store(e ast.Expr, v Term, st *State) {
 		case *types.Array:
 			b := x.eval(n.X, st)
 			i := x.eval(n.Index, st)
-			x.oblige(st, "bounds", "", n, and(app("<=", "0", i.S), app("<", i.S, fmt.Sprint(u.Len()))))
+			x.oblige(st, "bounds", "", n, and(app("<=", "0", i.S), app("<", i.S, x.arrayLen(u))))
 			x.store(n.X, Term{S: app("store", b.S, i.S, x.convert(st, v, u.Elem()).S), Sort: b.Sort, T: b.T}, st)
 		case *types.Map:
 			m := x.eval(n.X, st)
@@ -1095,7 +1095,7 @@ func (x *Exec) rangeStmt(n *ast.RangeStmt, label string, st *State, fr *frame, k
 		lenT = app("s-len", coll.S)
 		elemAt = func(st *State, i Term) Term { return x.loadElem(st, coll, i, u.Elem()) }
 	case *types.Array:
-		lenT = fmt.Sprint(u.Len())
+		lenT = x.arrayLen(u)
 		elemAt = func(st *State, i Term) Term {
 			return Term{S: app("select", coll.S, i.S), Sort: x.ctx.sortOf(u.Elem()), T: u.Elem()}
 		}
